@@ -11,6 +11,7 @@ open Emboss.Scope
 #print axioms C12_accepted_all_resolved
 #print axioms C12_all_resolved_accepted
 #print axioms C12_accepted_iff_all_resolved
+#print axioms C12_resolve_symbols_iff
 #print axioms C12_duplicates_rejected
 #print axioms C12_duplicates_rejected_pair
 #print axioms C12_canonical_roundtrip
